@@ -595,6 +595,8 @@ def _route_cases(ctx, kind, qt, c, u, v, rng, routes):
             yield _case(r, db=kind, q=q, val=_flat(fk, xs), unit=v, category=None, _nt=nt)
         elif r == "default_scalar":
             yield _case(r, db=kind, c=c, unit=v, _nt=True)
+            if rng.random() < 0.3:
+                yield _case("scalar_of_q", db=kind, q=q, _nt=False)
             if kind == "posc":
                 yield _case(r, db="poscdef", c=c, unit=v, def_unit=u if u in db.unit_to_unit_info else db.quantity_types[qt][0].unit,
                             def_value=float(rng.choice((12.5, -3.0, 1000.0, 0.25, rng.uniform(-50, 50)))), _nt=True)
@@ -671,7 +673,7 @@ def _derived_stream(ctx, salt, n):
                 own = _mk_q(q).GetUnit()
             except Exception:
                 pass
-        other = rng.choice([own, own, "m", "m2", "kg/s", entries[0][1] if entries else "s", "nope"])
+        other = rng.choice([own, own, "m", "m2", "kg/s", entries[0][1] if entries else "s", "nope", "1000ft3", "lbmole", "gmole/foo"])
         x = float(rng.uniform(-100, 100))
         xs = [float(rng.uniform(-9, 9)) for _ in range(rng.randrange(0, 5))]
         fk = rng.choice(("list", "tuple", "nd"))
